@@ -179,13 +179,18 @@ fn validate_node(n: &Node, t: ElementType, v: AutosarVersion, path: &str, is_roo
 /// what a copy of `n` (an element of type `t`) into a file of version `v` must contain, by the harness's reading:
 /// an element is kept iff its name is a sub-element of its parent's type in `v`; an attribute iff its version mask and,
 /// for enumeration values, the value's mask contain `v`; an element whose required attribute cannot be kept is omitted
-/// as a whole (None). Character data is kept as it is.
+/// as a whole (None), and so is an element whose enumeration value does not exist in `v` or that lacks the SHORT-NAME its
+/// type requires in `v`. Other character data is kept as it is.
 pub fn spec_filter(n: &Node, t: ElementType, v: AutosarVersion) -> Option<Node> {
+    if t.is_named_in_version(v) && n.children().next().map(|c| c.name.as_str()) != Some("SHORT-NAME") {
+        return None;
+    }
     let mut out = Node::new(&n.name);
     out.comment = n.comment.clone();
     for (an, val) in &n.attrs {
         let Ok(name) = AttributeName::from_str(an) else { continue };
-        let Some(spec) = t.find_attribute_spec(name) else { return None };
+        // an attribute the (target) type does not have is a part not permitted there: omitted
+        let Some(spec) = t.find_attribute_spec(name) else { continue };
         let mut keep = v.compatible(spec.version);
         if keep {
             if let (CharacterDataSpec::Enum { items }, Val::Enum(item)) = (spec.spec, val) {
@@ -198,14 +203,28 @@ pub fn spec_filter(n: &Node, t: ElementType, v: AutosarVersion) -> Option<Node> 
             return None;
         }
     }
+    let mut prev: Option<Vec<usize>> = None;
     for it in &n.items {
         match it {
-            Item::Text(val) => out.items.push(Item::Text(val.clone())),
+            Item::Text(val) => {
+                // an enumeration value that does not exist in `v` cannot be kept and the element has no other value: omitted as a whole
+                if let (Some(CharacterDataSpec::Enum { items }), Val::Enum(item)) = (t.chardata_spec(), val) {
+                    if !items.iter().any(|(i, m)| i.to_str() == item && v.compatible(*m)) {
+                        return None;
+                    }
+                }
+                out.items.push(Item::Text(val.clone()))
+            }
             Item::Node(c) => {
                 let Ok(name) = ElementName::from_str(&c.name) else { continue };
-                if let Some((ct, _)) = t.find_sub_element(name, v as u32) {
+                if let Some((ct, idx)) = t.find_sub_element(name, v as u32) {
+                    // an exclusive alternative (in the type of `v`) of the element kept before it cannot be kept as well
+                    if prev.as_ref().is_some_and(|p: &Vec<usize>| *p != idx && t.find_common_group(p, &idx).content_mode() == ContentMode::Choice) {
+                        continue;
+                    }
                     if let Some(fc) = spec_filter(c, ct, v) {
                         out.items.push(Item::Node(fc));
+                        prev = Some(idx);
                     }
                 }
             }
